@@ -56,13 +56,23 @@ fn dec_history(src: &mut Source) -> History {
     let steps = (0..n)
         .map(|_| match src.below(9) {
             0 | 1 => Step::Describe { kind: src.below(3) as u8, name: src.pick(&NAMES).to_string(), unit: if src.bool() { Some(*src.pick(&[Unit::Bytes, Unit::Seconds, Unit::Count])) } else { None }, desc: src.pick(&["d1", "d2", ""]).to_string() },
-            2 | 3 => Step::Counter { key: src.below(nk), path: src.below(PATHS.len()), abs: src.chance(64), v: src.u64_interesting() },
-            4 => Step::Gauge { key: src.below(nk), path: src.below(PATHS.len()), op: src.below(3) as u8, v: src.f64_interesting() },
-            5 | 6 => Step::Hist { key: src.below(nk), path: src.below(PATHS.len()), v: src.f64_interesting(), many: if src.chance(40) { 2 + src.below(80) } else { 1 } },
+            2 | 3 => Step::Counter { key: src.below(nk), path: src.below(2 * PATHS.len()), abs: src.chance(64), v: src.u64_interesting() },
+            4 => Step::Gauge { key: src.below(nk), path: src.below(2 * PATHS.len()), op: src.below(3) as u8, v: src.f64_interesting() },
+            5 | 6 => Step::Hist { key: src.below(nk), path: src.below(2 * PATHS.len()), v: src.f64_interesting(), many: if src.chance(40) { 2 + src.below(80) } else { 1 } },
             _ => Step::Snapshot,
         })
         .collect();
     History { specs, steps }
+}
+
+/// The upper half of the path numbers builds the same key with its labels given in the opposite order (label names are
+/// distinct, so the keys are equal: "equal keys built differently").
+fn reordered(s: &Spec, path: usize) -> Spec {
+    let mut out = s.clone();
+    if path >= PATHS.len() {
+        out.labels.reverse();
+    }
+    out
 }
 
 fn canon(s: &Spec) -> (String, Vec<(String, String)>) {
@@ -178,7 +188,7 @@ fn run_direct(h: &History, ctx: &mut Ctx) -> Result<(), Fail> {
                 apply_describe(&mut model, *kind, name, *unit, desc);
             }
             Step::Counter { key, path, abs, v } => {
-                let k: Key = build(&h.specs[*key], PATHS[*path], &mut arena);
+                let k: Key = build(&reordered(&h.specs[*key], *path), PATHS[*path % PATHS.len()], &mut arena);
                 let c = canon(&h.specs[*key]);
                 let handle = rec.register_counter(&k, &META);
                 model.see(0, &c);
@@ -192,7 +202,7 @@ fn run_direct(h: &History, ctx: &mut Ctx) -> Result<(), Fail> {
                 }
             }
             Step::Gauge { key, path, op, v } => {
-                let k: Key = build(&h.specs[*key], PATHS[*path], &mut arena);
+                let k: Key = build(&reordered(&h.specs[*key], *path), PATHS[*path % PATHS.len()], &mut arena);
                 let c = canon(&h.specs[*key]);
                 let handle = rec.register_gauge(&k, &META);
                 model.see(1, &c);
@@ -213,7 +223,7 @@ fn run_direct(h: &History, ctx: &mut Ctx) -> Result<(), Fail> {
                 }
             }
             Step::Hist { key, path, v, many } => {
-                let k: Key = build(&h.specs[*key], PATHS[*path], &mut arena);
+                let k: Key = build(&reordered(&h.specs[*key], *path), PATHS[*path % PATHS.len()], &mut arena);
                 let c = canon(&h.specs[*key]);
                 let handle = rec.register_histogram(&k, &META);
                 model.see(2, &c);
